@@ -656,7 +656,14 @@ func (w *World) DropFile(f *memfile.File) {
 
 // CrashJunk: like Crash, with junk bytes appended to the image.
 func (w *World) CrashJunk(f *memfile.File, upto int, junk []byte) *memfile.File {
-	img := append(f.ImageAt(upto, 0), junk...)
+	base := f.ImageAt(upto, 0)
+	img := append(base, junk...)
+	if r := decoder.LastRoot(img, int64(len(img))); r != nil && r.End > int64(len(base)) {
+		// the junk happens to be a complete root record that is self-consistent at
+		// this very position (a stale copy of a reverted root landing at its old
+		// offset): C03 excludes that case
+		return nil
+	}
 	var regs []memfile.Region
 	for _, r := range decoder.ValueRegions(img) {
 		regs = append(regs, memfile.Region{Off: r[0], End: r[1]})
